@@ -1111,8 +1111,11 @@ def tril(m, *args, **kwargs):
 
 @implements(np.einsum)
 def einsum(*operands, out=None, **kwargs):
+    # every term of the result is a product of one element of each operand
+    ret_units = NULL_UNIT
+    for op in operands:
+        ret_units = ret_units * getattr(op, "units", NULL_UNIT)
     subscripts, *operands = operands
-    ret_units = _validate_units_consistency(operands)
 
     if out is not None:
         out_view = np.asarray(out)
